@@ -63,10 +63,14 @@ template <class T> class vf_uset {
 #define set vf_uset
 using namespace std;
 static bool vf_streq(const char* a, const char* b) { size_t i = 0; for (; i < 17; i++) { if (a[i] != b[i]) return false; if (!a[i]) return true; } return false; }
-std::string Edge::GetBinding(const char* key) const { (void)key; __CPROVER_assert(0, "shadow Edge::GetBinding: unexpected key"); return std::string(); }
+std::string Edge::GetBinding(const char* key) const {
+  if (vf_streq(key, "deps")) return vf_deps;
+  __CPROVER_assert(0, "model capacity: shadow Edge::GetBinding: key not modelled"); __CPROVER_assume(0);
+  return std::string();
+}
 bool Edge::GetBindingBool(const char* key) const {
   if (vf_streq(key, "generator")) return vf_generator;
-  __CPROVER_assert(0, "shadow Edge::GetBindingBool: unexpected key");
+  __CPROVER_assert(0, "model capacity: shadow Edge::GetBindingBool: key not modelled"); __CPROVER_assume(0);
   return false;
 }
 struct Rule { std::string name_; std::string& name() const { return const_cast<Rule*>(this)->name_; } };
@@ -188,7 +192,7 @@ def build_fn(harness_file, defines=(), mutant=None, unwind=14, str_cap=16):
             f.write(mirrored_string_piece())
         with open(os.path.join(d, "util.h"), "w") as f:
             f.write(slicer.read_src("src/util.h"))
-        steps = [gotocc_cpp(["unit.cc"], defines=list(defines) + ["VF_STR_CAP=%d" % str_cap, "VF_VEC_CAP=4", "VF_MAP_CAP=4", "VF_SET_CAP=12"],
+        steps = [gotocc_cpp(["unit.cc"], defines=list(defines) + ["VF_STR_CAP=%d" % str_cap, "VF_VEC_CAP=4", "VF_MAP_CAP=5", "VF_SET_CAP=12"],
                             includes=[d, os.path.join(VERIF, "props", "harness"), os.path.join(VERIF, "stubs", "ninja_plan"), os.path.join(VERIF, "stubs", "cstring"), STD, os.path.join(VERIF, "stubs")])]
         build.lowerings = counts
 
